@@ -29,6 +29,11 @@ def run(ctx):
     ctx.do(SI.rule_pt1, [SI.CP])
     ctx.do(CA.rule_c2, "ProjectiveObject", scope=ctx.scope(ENTRIES))
     ctx.do(SH.rule_sh6)
+    ctx.do(SH.rule_hom1, parts=("cp1",), min_proved=6)
+    ctx.do(CA.rule_query_purity, "CP1Disk", [
+        "complement", "inversion", "fs_center", "fs_diameter",
+        "center_inside", "circle_parameters", "contains", "intersects",
+        "boundary_points", "interior_point"])
     ctx.do(SI.rule_pm1, ["geometry_tools/complex_projective.py"])
     ctx.do(u1, ENTRIES, min_functions=20)
     ctx.r.assume("stereographic formulas, Moebius images, double complement "
